@@ -110,6 +110,16 @@ def _nsp_unique(child_nsmap: dict, parent_nsmap: dict) -> dict:
     return nsmap
 
 
+def _with_comment_tails(text, sibling):
+    # lxml holds text that follows a comment as that comment's tail; comments are
+    # dropped on import, so their tails belong to the text that precedes them
+    while sibling is not None and sibling.tag is etree.Comment:
+        if sibling.tail is not None:
+            text = sibling.tail if text is None else text + sibling.tail
+        sibling = sibling.getnext()
+    return text
+
+
 def _process_element(e, clean, collapse, literals) -> Node:
     """
     Process an lxml etree element into a Metapype node. If the clean attribute is true, then
@@ -125,38 +135,40 @@ def _process_element(e, clean, collapse, literals) -> Node:
 
     """
     tag = e.tag[e.tag.find("}") + 1:]  # Remove any prepended namespace
+    text = _with_comment_tails(e.text, e[0] if len(e) > 0 else None)
+    tail = _with_comment_tails(e.tail, e.getnext())
 
     node = Node(tag)
     node.nsmap = e.nsmap
     node.prefix = e.prefix
 
     if clean:
-        if e.text is not None:
+        if text is not None:
             if tag in literals:
-                node.content = e.text
+                node.content = text
             else:
                 # if text consists entirely of one or more spaces and/or non-breaking spaces, keep it
-                if re.fullmatch("[ \xA0\x09]+", e.text):
-                    node.content = e.text
+                if re.fullmatch("[ \xA0\x09]+", text):
+                    node.content = text
                 else:
-                    node.content = e.text.strip()
+                    node.content = text.strip()
                     if node.content == '':
                         node.content = None
                     elif collapse:
-                        node.content = " ".join(e.text.split())
-        if e.tail is not None:
+                        node.content = " ".join(text.split())
+        if tail is not None:
             # if tail consists entirely of one or more spaces and/or non-breaking spaces, keep it
-            if re.fullmatch("[ \xA0\x09]+", e.tail):
-                node.tail = e.tail
+            if re.fullmatch("[ \xA0\x09]+", tail):
+                node.tail = tail
             else:
-                node.tail = e.tail.strip()
+                node.tail = tail.strip()
                 if node.tail == '':
                     node.tail = None
                 elif collapse:
-                    node.tail = " ".join(e.tail.split())
+                    node.tail = " ".join(tail.split())
     else:
-        node.content = e.text
-        node.tail = e.tail
+        node.content = text
+        node.tail = tail
 
     for name, value in e.attrib.items():
         if "{" not in name:
